@@ -7,6 +7,8 @@ order); the channel flips single bits inside the hashed region of signatures PGP
 accepted (F1).  Oracles: (direct) the tail of PGPSignature.hashdata() equals the
 received octets version..hashed area + trailer; (behavioural) the unfaulted foreign
 signature verifies, every flipped variant that PGPy still parses fails."""
+import copy
+
 from .. import bridge, seams, world
 from ..ref import keys as rkeys, sigs as rsigs
 from ..ref.wire import (WireError, encode_packet, encode_subpacket, max_declared_subpacket_length, split_packets,
@@ -20,7 +22,7 @@ RULE = ('cases are sequences of 2-10 foreign (reference-peer) or PGPy-made signa
         'comparison and the verify verdict were evaluated; distinct = distinct sequences of (signature type, sorted '
         'subpacket types) among non-trivial runs')
 TIERS = {'quick': {'runs': 4000, 'budget_s': 60}, 'thorough': {'runs': 250000, 'budget_s': 1500}}
-PROBES = ('unknown_subpacket_type', 'critical_bit', 'nonshortest_length', 'five_octet_length', 'two_octet_length',
+PROBES = ('verified_via_copy', 'unknown_subpacket_type', 'critical_bit', 'nonshortest_length', 'five_octet_length', 'two_octet_length',
           'boolean_other', 'boolean_true', 'flag_unknown_bits', 'multi_octet_flags', 'non_ascii_text', 'non_utf8_text',
           'rejected_at_parse', 'flip_rejected_at_parse', 'flip_verified_false', 'pgpy_made_reimported', 'empty_subpacket_body',
           'old_format_header', 'rsa_signer', 'dsa_signer', 'ecdsa_signer', 'eddsa_signer')
@@ -135,7 +137,7 @@ def generate(rng, tier):
         steps.append({'id': sid, 'op': 'ref_sign', 'sigtype': styp, 'halg': rng.choice(HASHES), 'subject': subj, 'hashed': sps,
                       'issuer_hashed': issuer_hashed, 'issuer_fpr': fpr, 'fmt': rng.choice(['new', 'new', 'old']),
                       'faults': [{'kind': 'F1', 'pos': rng.random()} for _ in range(nflips)],
-                      'sweep': tier == 'thorough' and rng.random() < 0.05})
+                      'sweep': tier == 'thorough' and rng.random() < 0.05, 'via_copy': rng.random() < 0.4})
     return {'config': {'keykind': kind, 'created': created, 'uid': rng.choice(['Foreign Signer <f@example.org>', 'Søren <s@example.org>'])},
             'steps': steps}
 
@@ -358,6 +360,20 @@ def _ref_sign_step(pgpy, pkey, pub, secret, uid_octets, step, ctx, shapes):
         types = sorted(set(sp['t'] for sp in step['hashed']) - {2})
         ctx.viol('C05:foreign-valid-rejected:type%02x' % styp,
                  'a valid foreign signature (type 0x%02x, hashed subpacket types %s) does not verify under PGPy: %r' % (styp, types, verdict))
+    via_copy = bool(step.get('via_copy'))
+    if via_copy:
+        # the object the caller verifies is often not the parsed one but a copy of it (copy.copy of a signature or key,
+        # the public half of a secret key): the copy must still hash the received octets
+        ctx.probe('verified_via_copy')
+        ctx.checked()
+        try:
+            verdict = bool(pkey.verify(subj_obj, copy.copy(psig)))
+        except Exception as e:
+            verdict = e
+        if verdict is not True:
+            ctx.viol('C05:foreign-valid-rejected-after-copy:type%02x' % styp,
+                     'a copy of a valid foreign signature (type 0x%02x) does not verify under PGPy although the parsed object does: %r'
+                     % (styp, verdict))
     ctx.event(step['id'], 'ref_sign', 'accepted', 'type%02x' % styp, len(hashed))
     types = sorted(set(sp['t'] for sp in step['hashed']) - {2})
     if types:
@@ -394,6 +410,8 @@ def _ref_sign_step(pgpy, pkey, pub, secret, uid_octets, step, ctx, shapes):
         try:
             with watchdog(30):
                 msig = pgpy.PGPSignature.from_blob(bytes(mut))
+                if via_copy:
+                    msig = copy.copy(msig)
                 ok = bool(pkey.verify(subj_obj, msig))
         except CallTimeout:
             ctx.probe('pgpy_call_timeout')
